@@ -91,6 +91,9 @@ func runC01(r *simrt.Run, tier Tier) Outcome {
 }
 
 func runC02(r *simrt.Run, tier Tier) Outcome {
+	if r.OneIn(6, "c02.lookalike-keys") {
+		return runC02Keys(r)
+	}
 	o := DrawOpts(r)
 	o.Aggregation, o.AggBias = true, true
 	if o.MaxIDB < 2 {
